@@ -134,7 +134,7 @@ impl<'a> PGen<'a> {
         if depth == 0 || self.r.below(3) == 0 {
             return if self.r.below(4) == 0 { self.lit() } else { self.col() };
         }
-        match self.r.below(14) {
+        match self.r.below(22) {
             0 => format!("{} + {}", self.expr(depth - 1), self.expr(depth - 1)),
             1 => format!("({} - {}) * {}", self.expr(depth - 1), self.expr(depth - 1), self.expr(depth - 1)),
             2 => format!("{} // {}", self.expr(depth - 1), self.expr(depth - 1)),
@@ -155,6 +155,14 @@ impl<'a> PGen<'a> {
             10 => format!("({} | text.upper)", self.col()),
             11 => format!("(math.round 2 {})", self.col()),
             12 => format!("({} ~= 'x')", self.col()),
+            13 => format!("{} / {}", self.expr(depth - 1), self.expr(depth - 1)),
+            14 => format!("{} % {}", self.col(), self.r.range(2, 9)),
+            15 => format!("{} ** 2", self.col()),
+            16 => format!("({} | as int)", self.col()),
+            17 => format!("(text.length {}) + (math.abs {})", self.col(), self.col()),
+            18 => format!("({} | text.contains 'ab') || ({} | text.starts_with 'x')", self.col(), self.col()),
+            19 => format!("({} | date.to_text \"%Y-%m\")", self.col()),
+            20 => format!("(math.pow 2 {}) / (math.sqrt {})", self.col(), self.col()),
             _ => format!("-{}", self.col()),
         }
     }
@@ -681,6 +689,8 @@ const DIALECT_SENSITIVE: &[&str] = &[
     "from t | filter (d | date.to_text \"%Y\") == '2020' | derive {x = a ** 2} | take 1",
     "from tracks | group genre_id (sort {-milliseconds} | take 2) | select {`group`, name}",
     "from a | join side:full b (==id) | derive {z = a.x ?? b.x} | take 7",
+    "from t | derive {q = a / b, m = a % b, p = math.pow a 2} | filter (q > 1.5) | take 4",
+    "from t | select {r = (a / b | math.round 2), c = (s | text.contains 'x'), d = a // b}",
 ];
 
 impl<'a> Gen<'a> {
@@ -731,6 +741,30 @@ impl<'a> Gen<'a> {
     pub fn next_op(&self, r: &mut Rng, prev: Option<&Op>, dialect_sensitive: bool) -> Op {
         if let Some(p) = prev {
             if let Some(psrc) = p.src() {
+                if r.below(6) == 0 {
+                    // the very same source under another target / other options
+                    let mut o = p.clone();
+                    match o.opts_mut() {
+                        Some(opts) => {
+                            let old = opts.target.clone();
+                            opts.target = match old.as_str() {
+                                "sql.ansi" => "sql.generic".into(),
+                                "sql.generic" | "sql.any" => "sql.ansi".into(),
+                                _ => r.pick(DIALECTS).to_string(),
+                            };
+                            if r.below(3) == 0 {
+                                opts.format = !opts.format;
+                            }
+                            return o;
+                        }
+                        None => {
+                            return Op::Compile {
+                                src: psrc.to_string(),
+                                opts: pick_opts(r, true),
+                            }
+                        }
+                    }
+                }
                 if r.below(4) == 0 {
                     let v = variant_of(psrc, r);
                     if r.below(2) == 0 {
